@@ -32,6 +32,11 @@ def cases(tier, rng, boost=1):
         yield _mk(a_, b_, m_, form='per_array_narrow', src='corpus-big')
         yield _mk(a_, b_, m_, form='unsigned_mixed', src='corpus-big')
     yield _mk([[0] * 30 + [1] * 4 + [0] * 3], [[0] * 31 + [1] * 3 + [2] * 3], 1, threads=16, src='corpus')   # N=37, rare state
+    # container shapes learned from seeded changes (mixed integer widths, narrow first / narrow tail, signed then unsigned): the first labeling in that form
+    for trajs_, form_, _tag in gen.special_sets(core.Rng(17)):
+        other_ = [[(x * 3 + 1) % 5 for x in t] for t in trajs_]
+        for m_ in (0, 1):
+            yield _mk(trajs_, other_, m_, form=form_, threads=3, src='corpus-forms')
     # long inputs just above the powers of two where blocked / chunked kernels change their path (prime frame counts: never divisible by the thread count)
     for N_ in (1031, 2053, 4099, 8209) + ((16411, 65537) if tier != 'quick' else ()):
         lrng = core.Rng(N_)
